@@ -99,9 +99,9 @@ class Pipe:
         call = ("call", site_key, s.ck)
         init = None
         if len(self.reads) >= 1:
-            # INIT: the clone of the cell content made before the chain
+            # INIT: the clone of the cell content made before the chain (in its inlining context)
             kk, rs = self.reads[0]
-            init = ("clone", self.ctx.prog.bp(rs.body).arg_term(rs.bb, 0))
+            init = ("clone", self.I.in_context(kk[0], rs.body, self.ctx.prog.bp(rs.body).arg_term(rs.bb, 0)))
         return (k, s, call, init)
 
 
@@ -593,7 +593,7 @@ def n1_flag(ctx, rep):
     rep.check(vals == {"true"}, R, "flag-initially-true:" + short(body.path), ctx.where(body, h), "flag is true when no reducer ran", "flag before the loop is %s" % sorted(vals))
     # it is the first component of the chain result, and the caller's guard tests it
     rt = P.I.ret_term(body)
-    ok_ret = rt[0] == "agg" and rt[1] == "tuple"
+    ok_ret = rt[0] == "agg" and any(x[0] == "phi" and set(x[1]) == {("const", "true", "bool"), ("const", "false", "bool")} for x in rt[2])
     rep.check(ok_ret, R, "flag-returned:" + short(body.path), ctx.where(body), "chain result carries the flag", "chain result is %s" % term_str(rt))
     ctx._notify_flag = (body, fl)
 
@@ -623,7 +623,14 @@ def n2_guard(ctx, rep):
         if raw[0] == "unop" and raw[1] == "Not":
             raw = raw[2]
             neg = True
-        if not any(st[0] == "call" and ctx.prog.by_key.get(st[2]) is not None and ctx.prog.by_key[st[2]].path == chain_fn.path for st in subterms(raw)):
+        # the tested value must derive from the chain function's result (possibly through
+        # crate-local wrappers around it)
+        Ic = getattr(P, "_I_chain", None)
+        if Ic is None:
+            Ic = Interp(ctx.prog, opaque=lambda b_: b_.path == chain_fn.path)
+            P._I_chain = Ic
+        ex = Ic.expand(raw)
+        if not any(st[0] == "call" and ctx.prog.by_key.get(st[2]) is not None and ctx.prog.by_key[st[2]].path == chain_fn.path for st in subterms(ex)):
             continue
         tt = P.I.in_context(k[0], n.body, raw)
         if not (tt[0] == "phi" and set(tt[1]) == {("const", "true", "bool"), ("const", "false", "bool")}):
